@@ -396,7 +396,8 @@ class Run:
                 allb = random.Random(self.seed * 1000003 + len(g["name"])).sample(allb, g["sample"])
             got = len(allb)
             for k, ops in enumerate(allb, 1):
-                self.behaviours[f"{g['name']}-{k}"] = ops
+                # a marker the driver strips before driving (never an event): how the whole behaviour is to be run
+                self.behaviours[f"{g['name']}-{k}"] = ([g["prefix"]] + ops) if g.get("prefix") else ops
             self.family_total[g["name"]] = total
             self.families[g["name"]] = got
             log(f"generated {g['name']}: {got} behaviours in {wall}")
@@ -541,7 +542,7 @@ class Run:
                     "judge": self.prop.judge_module,
                     "mode": "passive" if viol["tid"].startswith("passive:") else "system" if viol["tid"].startswith("system:") else "noise" if viol["tid"].startswith("noise-") else "plain",
                     "tid": viol["tid"][6:] if viol["tid"].startswith("noise-") else viol["tid"][7:] if viol["tid"].startswith("system:") else viol["tid"],
-                    "ops": [e["op"] for e in t["ev"]],
+                    "ops": viol.get("ops") or [e["op"] for e in t["ev"]],
                     "trace": t["ev"],
                     "failed_at": viol["verdict"]["at"],
                     "got": viol["verdict"].get("got"),
@@ -732,7 +733,48 @@ class Run:
             f"{nviol} violate a {mine}* clause ({time.time()-t0:.1f}s after the suite's {info['wall_s']}s)")
 
     # ---- 9. behaviours of the composite specification (spec/FsSystem.tla)
+    def system_run_http(self):
+        """C17: the composite specification's walks driven through the HTTP server with the real connector (two logins to the
+        shared instance) AND in process.  A step rejected over HTTP in a behaviour that is accepted in process belongs to C17."""
+        from props import sysmodel
+
+        t0 = time.time()
+        sub = Run(sysmodel.SYSHTTP(), self.tier, self.seed)
+        sub.model_check()
+        sub.generate()
+        for tid in list(sub.behaviours):
+            ops = sub.behaviours[tid]
+            sub.behaviours["inproc-" + tid] = ops
+            sub.behaviours[tid] = [{"k": "_via", "via": "http"}] + ops
+        traces = sub.drive_all()
+        sub.settle(traces, sub.judge(traces))
+        bad = {v["tid"] for v in sub.violations}
+        mine = 0
+        for v in sub.violations:
+            if v["tid"].startswith("inproc-") or ("inproc-" + v["tid"]) in bad:
+                continue            # not this property's: the in-process execution is rejected too
+            mine += 1
+            self.violations.append(dict(v, tid="system:" + v["tid"], ops=sub.behaviours[v["tid"]]))
+        self.states += sub.states
+        self.transitions += sub.transitions
+        self.families.update({k + "_http": n for k, n in sub.families.items()})
+        self.families.update({k + "_inproc": n for k, n in sub.families.items()})
+        self.extra_cov["system_behaviours_over_http"] = {
+            "what": "behaviours of the composite specification spec/FsSystem.tla (two sessions; USE SCHEMA, DML at three qualification "
+                    "levels with literals / variables / bound values, UPDATE, multi-row INSERT, DDL, failing statements, transactions, "
+                    "SET / UNSET, execute_string scripts, an open result fetched piecemeal while other statements run) driven through "
+                    "the HTTP server with the real connector - two logins to the shared instance - and, the same behaviours, in process; "
+                    "after every operation the whole projected state is observed through both sessions and judged by TLC; a step "
+                    "rejected over HTTP in a behaviour accepted in process is this property's",
+            "model_checks": sub.mc_log, "families": sub.families, "traces_judged": len(sub.verdicts),
+            "rejected_over_http_only": mine, "rejected_in_process_too": len([t for t in bad if t.startswith("inproc-")]),
+            "sample": next((t["ev"][:3] for t in traces if not t["tid"].startswith("inproc-")), []),
+        }
+        log(f"system behaviours over HTTP: {len(traces)} traces, {mine} rejected over HTTP only ({time.time()-t0:.1f}s)")
+
     def system_run(self):
+        if self.prop.id == "C17" and os.environ.get("VERIF_NO_SYSTEM") != "1":
+            return self.system_run_http()
         if self.prop.id not in SYSTEM_PROPS or os.environ.get("VERIF_NO_SYSTEM") == "1":
             return
         from props import sysmodel
@@ -820,15 +862,15 @@ class Run:
         if rp.get("mode") == "system":
             from props import sysmodel
 
-            sub = Run(sysmodel.SYS(), self.tier, self.seed)
+            sub = Run(sysmodel.SYSHTTP() if self.prop.id == "C17" else sysmodel.SYS(), self.tier, self.seed)
             sub.behaviours = {rp.get("tid", "replay"): rp["ops"]}
             traces = sub.drive_all()
             sub.settle(traces, sub.judge(traces))
             for t in traces:
                 for k, e in enumerate(t["ev"], 1):
                     print(k, json.dumps(e["op"]), "->", json.dumps(e["obs"]))
-            self.violations = [v for v in sub.violations
-                               if sysmodel.attribute([e["op"] for e in v["trace"]["ev"]], v["verdict"]) == self.prop.id]
+            self.violations = [v for v in sub.violations if self.prop.id == "C17"
+                               or sysmodel.attribute([e["op"] for e in v["trace"]["ev"]], v["verdict"]) == self.prop.id]
             return self.report()
         if rp.get("mode") == "passive":
             # re-record the one test of the repository's suite and judge it again
